@@ -130,7 +130,7 @@ def run(ctx):
                        "(statement, data) pairs with at least one result row, each compared with all its variants")
     ctx.cov["samples"] = [{"query": r["query"], "variant": r["variant"], "rows": len(r["result"].get("rows") or [])} for r in rows[:3]]
     ctx.cov["distribution"] = {"queries": len(groups), "ordered_total_order_queries": sum(1 for g, rs in groups.items() if rs[0].get("ordered")), "relations_checked": dict(rel_checked), "modelled": len(ev),
-                               "meets_spec": sum(1 for v in verd if v[1] == 2), "inside_D3": sum(1 for v in verd if v[4] == 1),
+                               "meets_spec": sum(1 for v in verd if v[1] == 2), "inside_D3": sum(1 for v in verd if v[4] == 2), "inside_D10_only": sum(1 for v in verd if v[4] == 1),
                                "relations_failing_by_finding": dict(excused),
                                "with_optional": sum(1 for g, rs in groups.items() if rs[0].get("has_optional"))}
     ctx.assumptions += ["partial: goroutine scheduling and GOMAXPROCS are exercised by the correspondence run only; the model states "
